@@ -45,13 +45,28 @@ func C12_Pipeline() {
 			script = append(script, symio.Step{N: 0})
 		}
 	}
+	// a read fault after 1, 2 or 4 delivered reads (or none)
+	if at := []int{-1, 1, 2, 4}[verif.Choice("fault", 4)]; at >= 0 && at < len(script) {
+		script = append(script[:at:at], symio.Step{N: 0, Err: errC12Fault})
+	}
 	f := &symio.File{Data: []byte(src), Script: script, FileName: "f"}
 	out, log := &symio.Writer{}, &symio.Writer{}
 	_, err := bcl.ParseFile(f, bcl.OptOutput(out), bcl.OptLogger(log))
+	// the caller looks at its writers as soon as ParseFile has returned: every
+	// write the library made to them must be ordered before the return
+	if len(log.Buf) < 0 || len(out.Buf) < 0 {
+		panic("unreachable")
+	}
 	verif.Quiesce()
 	verif.Observe("err", err != nil)
 	verif.Reach("returned")
 }
+
+var errC12Fault = errorString("device failure")
+
+type errorString string
+
+func (e errorString) Error() string { return string(e) }
 
 type lockedWriter struct {
 	mu  sync.Mutex
@@ -193,5 +208,51 @@ func C12_TwoUnmarshals() {
 	verif.Assert(ea == nil && eb == nil, "no error")
 	verif.Assert(a.Name == "a" && a.X == 1001 && a.Y == "s", "first result as sequential")
 	verif.Assert(b.Name == "b" && b.P == 2.5 && b.Inner.Q == 7, "second result as sequential")
+	verif.Reach("returned")
+}
+
+type c12T struct {
+	Name string
+	F    int
+}
+
+// C12_SharedSliceBind: one Prog with a slice binding executed from two
+// goroutines, each of which goes on to use its binding (Bind into its own
+// slice) while the other may still be executing; then two concurrent
+// Unmarshal calls into slices. Whatever a binding refers to belongs to the
+// caller that received it.
+func C12_SharedSliceBind() {
+	src := "def c12t \"a\" {\n f = 1001\n}\ndef c12t \"b\" {\n f = 2\n}\nbind c12t:all -> slice\n"
+	w, log := &lockedWriter{}, &lockedWriter{}
+	p, err := bcl.Parse([]byte(src), "x", bcl.OptOutput(w), bcl.OptLogger(log))
+	if err != nil {
+		panic("rejected")
+	}
+	k := verif.Int("k")
+	patchConst(p, 1001, k)
+	var r1, r2 []c12T
+	var e1, e2 error
+	done := make(chan struct{})
+	run := func(r *[]c12T, e *error) {
+		_, bn, err := bcl.Execute(p)
+		if err == nil {
+			err = bcl.Bind(r, bn)
+		}
+		*e = err
+		done <- struct{}{}
+	}
+	go run(&r1, &e1)
+	go run(&r2, &e2)
+	<-done
+	<-done
+	verif.Assert(e1 == nil && e2 == nil, "no error")
+	want := []c12T{{"a", k}, {"b", 2}}
+	verif.Assert(len(r1) == 2 && len(r2) == 2 && r1[0] == want[0] && r1[1] == want[1] && r2[0] == want[0] && r2[1] == want[1], "both callers get the records")
+	// sequentially: a binding stays what it was after later executions
+	_, bnA, _ := bcl.Execute(p)
+	other, _ := bcl.Parse([]byte("def c12t \"z\" {\n f = 9\n}\nbind c12t:all -> slice\n"), "y", bcl.OptOutput(w), bcl.OptLogger(log))
+	bcl.Execute(other)
+	var r3 []c12T
+	verif.Assert(bcl.Bind(&r3, bnA) == nil && len(r3) == 2 && r3[0] == want[0] && r3[1] == want[1], "an earlier binding is not changed by a later execution")
 	verif.Reach("returned")
 }
